@@ -532,6 +532,16 @@ class CallMixin:
             b = clamp(hi, n if is_sym(n) else z3.IntVal(n))
             b = z3.If(b < a, a, b)
             return [ok(BytesV(c.base, z3.simplify(c.lo + a), z3.simplify(c.lo + b)), st)]
+        if is_sym(c) and z3.is_string(c) and (lo is None or not is_sym(lo) or z3.is_int(lo)) and (hi is None or not is_sym(hi) or z3.is_int(hi)):
+            # Python slice of a symbolic string with non-negative bounds: s[a:b] = substring from min(a,len) of length max(0, min(b,len)-a)
+            n = z3.Length(c)
+            a = z3.IntVal(0) if lo is None else to_int_term(lo)
+            b = n if hi is None else to_int_term(hi)
+            self.oblige(st, f'safety.slice_bounds_nonneg@{line}', z3.And(a >= 0, b >= 0), kind='safety', line=line,
+                        note='negative slice bounds of a symbolic string are not modelled')
+            a2 = z3.If(a > n, n, a)
+            b2 = z3.If(b > n, n, b)
+            return [ok(z3.SubString(c, a2, z3.If(b2 > a2, b2 - a2, 0)), st)]
         if isinstance(c, bytes) and c == b'':
             return [ok(b'', st)]
         if isinstance(c, (str, tuple, bytes)) and not is_sym(lo) and not is_sym(hi):
